@@ -130,3 +130,29 @@ def read_wav(path):
 
 def region_key(i, r):
     return (i, bytes(r.data), r.start, r.end, r.sr, r.sw, r.ch)
+
+
+def write_wav(path, data, sr, sw, ch, trailer=False):
+    """Writes a wav file; with trailer=True a LIST/INFO chunk follows the
+    data chunk (as many editors and recorders write): still a valid wav whose
+    audio is exactly `data`."""
+    with wave.open(path, "wb") as w:
+        w.setframerate(sr)
+        w.setsampwidth(sw)
+        w.setnchannels(ch)
+        w.writeframes(data)
+    if trailer:
+        import struct
+        info = b"INFOISFT" + struct.pack("<I", 14) + b"verif-sim 1.0\x00"
+        chunk = b"LIST" + struct.pack("<I", len(info)) + info
+        with open(path, "r+b") as f:
+            f.seek(0, 2)
+            if f.tell() % 2:
+                f.write(b"\x00")
+            f.write(chunk)
+            size = f.tell() - 8
+            f.seek(4)
+            f.write(struct.pack("<I", size))
+        # sanity: the standard reader still sees exactly the audio
+        got, _ = read_wav(path)
+        assert got == data, "trailer broke the wav file"
